@@ -53,9 +53,12 @@ def fragment_tie(ctx) -> int:
     for text in FRAGMENTS:
         c = tsim.Circuit(text)._stim_circ
         term, n, slots, qmap = circuit_to_coq(c)
-        # lanes with an open input: those touched by the leading `I` instruction
-        first = c[0]
-        open_lanes = [qmap[t.value] for t in first.targets_copy()] if first.name == "I" else []
+        # lanes with an open input in the raw diagram: those created by ensure_lane (first vertex still a BOUNDARY);
+        # lanes created by a reset start with an X spider and have no input
+        from pyzx_param.utils import VertexType
+        from tsim.core.parse import parse_stim_circuit
+        built0 = parse_stim_circuit(c)
+        open_lanes = [(qmap[q] if q != -2 else n - 1) for q, v in built0.first_vertex.items() if built0.graph.type(v) == VertexType.BOUNDARY]
         ex = "[" + "; ".join("true" if i in open_lanes else "false" for i in range(n)) + "]"
         terms.append(
             f"match build {n - 1}%nat {term} with None => None | Some st =>\n"
